@@ -99,7 +99,8 @@ theorem parseCigar_accessors_safe (b : Bytes) (c : List CigarOp) (_h : parseCiga
 
 /-! ### sam.ParseAux (text) -/
 
-/-- `sam.ParseAux` never panics, for every text and every behaviour of `strconv` (repair fixes/C11-3) -/
+/-- `sam.ParseAux` never panics, for every text and every behaviour of `strconv` (the `B` branch as
+repaired in /repo by cef38a2: `len(txt) == 0 || (len(txt) > 1 && txt[1] != ',')`) -/
 theorem parseAux_total (P : Parsers) (text : Bytes) : (parseAux P text).isPanic = false := by
   rcases parseAux_spec P text with h | ⟨a, h, _⟩ <;> rw [h] <;> rfl
 
@@ -168,7 +169,8 @@ theorem ltf8_stream_total (s : Bytes) : (streamRead "cram.errorReader.ltf8" ltf8
 theorem readBAI_total (s : Bytes) : (readBAI s).isPanic = false := readBAI_total' s
 
 /-- `tabix.ReadFrom` never panics: the name block is only indexed when its length is positive
-(repair fixes/C11-12), and the references are read by the same `internal.ReadIndex` -/
+(`l_nm < 0` is an error, `l_nm == 0` means no names), and the references are read by the same
+`internal.ReadIndex` -/
 theorem readTabix_total (s : Bytes) : (readTabix s).isPanic = false := readTabix_total' s
 
 /-! ### SAM header text parsers (indexing only; the meaning of a field is a parameter) -/
@@ -212,8 +214,12 @@ def digitsOnly : Parsers :=
 example : parseAux digitsOnly [88, 89, 58, 105, 58, 51, 48, 48] = ok [88, 89, 83, 44, 1] := by decide
 -- "XY:B:s,1,2" ↦ XY B s 2 0 0 0 | 1 0 | 2 0
 example : parseAux digitsOnly [88, 89, 58, 66, 58, 115, 44, 49, 44, 50] = ok [88, 89, 66, 115, 2, 0, 0, 0, 1, 0, 2, 0] := by decide
--- "XY:B:c" (the library's own rendering of an empty array) is an error, not a panic
-example : parseAux digitsOnly [88, 89, 58, 66, 58, 99] = err := by decide
+-- "XY:B:c" (the library's own rendering of an empty array) is the empty array, "XY:B:" and "XY:B:cx" are errors
+example : parseAux digitsOnly [88, 89, 58, 66, 58, 99] = ok [88, 89, 66, 99, 0, 0, 0, 0] := by decide
+example : parseAux digitsOnly [88, 89, 58, 66, 58] = err := by decide
+example : parseAux digitsOnly [88, 89, 58, 66, 58, 99, 120] = err := by decide
+-- "XY:Z:" is the empty string value
+example : parseAux digitsOnly [88, 89, 58, 90, 58] = ok [88, 89, 90] := by decide
 example : wfAux [88, 89, 66, 115, 2, 0, 0, 0, 1, 0, 2, 0] = true := by decide
 -- an aux block: XYC\x01  ZZZab\0  BBBc\x02\0\0\0\x07\x08
 example : parseAuxBam [88, 89, 67, 1, 90, 90, 90, 97, 98, 0, 66, 66, 66, 99, 2, 0, 0, 0, 7, 8] =
